@@ -39,7 +39,7 @@ def run(ctx):
         hb = ctx.build_harness("c07", profile)
         if hb and drv:
             rc, out, _ = vcheck.sh([hb, "corr", str(ctx.seed), str(n)], timeout=600)
-            ctx.correspondence(f"raw-words-f64-f62-f128:{profile}", out.split("\n"), drv, compare=cmp)
+            ctx.correspondence(f"raw-words-f64-f62-f128:{profile}", out.split("\n"), drv, compare=cmp, shards=8, timeout=1500)
         # property-level falsifier (independent oracle); more effort when an obligation is broken
         if hb:
             budget = (3000 if quick else 100000) * (4 if ctx.broken() else 1)
